@@ -11,7 +11,10 @@ for bpa in (1, 2, 4):
                         defines=["BPA=%d" % bpa], subst={"BPA": bpa}, loops="C18/listing.loops.json", expected_loops=2, unwind=20, checks=CH, timeout=900, tier="quick" if bpa != 4 else "thorough"))
 GROUPS.append(Group(name="C18/list_output_tms9900", unity="C18/u_listfmt.cpp", entry="h_listfmt",
                     functions=[("list_output_tms9900", "disasm/tms9900.cpp", "harness+loop-contract, any range"), ("disasm_tms9900", "disasm/tms9900.cpp", "replaced by its contract (length 2/4/6), discharged by C08/disasm_tms9900")],
-                    loops="C18/listfmt.loops.json", expected_loops=2, unwind=14, checks=CH, timeout=900))
+                    defines=["LISTCPU=9900"], loops="C18/listfmt.loops.json", expected_loops=2, unwind=14, checks=CH, timeout=900))
+GROUPS.append(Group(name="C18/list_output_msp430", unity="C18/u_listfmt.cpp", entry="h_listfmt",
+                    functions=[("list_output_msp430_both", "disasm/msp430.cpp", "harness+2 loop-contracts, any range (function text extracted verbatim; backs list_output_msp430 and list_output_msp430x)"), ("disasm_msp430/disasm_msp430x", "disasm/msp430.cpp", "replaced by their contract (even length 2..8), discharged for msp430 by C08/disasm_msp430")],
+                    defines=["LISTCPU=430"], loops="C18/listfmt430.loops.json", expected_loops=2, unwind=14, checks=CH, timeout=900))
 GROUPS += [g for g in _c12.GROUPS if g.name == "C12/assemble"]
 # the dump shows exactly the bytes marked DL_DATA: the data directives' contracts carry "every byte they emit is marked DL_DATA"
 GROUPS += [g for g in _c05.GROUPS if g.tier == "quick" and ("parse_db" in g.name or "parse_dc" in g.name)]
@@ -22,6 +25,6 @@ EXPLANATION = ("Partial: contract proof (DFCC loop contracts, witness byte, ghos
 TRUSTED = ["fprintf replaced by a contract that recognises the dump's format strings", "Memory replaced by the witness contract"]
 MANIFEST = {
     "text": "Partial: for any image range and bytes-per-address, the data-section dump of the listing shows each data byte exactly once with its value on the line whose label + column is its address, and nothing else; assemble() passes exactly [start, location counter) to the listing formatter.",
-    "note": "One per-CPU listing formatter (tms9900) is under contract in the thorough tier. The marker obligation of the data directives (.db/.dc*: every emitted byte is marked as data, which is what the dump selects) is shared with C05. the other 56 per-CPU list_output formatters, symbol table and low/high summary are not covered.",
+    "note": "Two per-CPU listing formatters (tms9900, msp430/msp430x) are under contract. The marker obligation of the data directives (.db/.dc*: every emitted byte is marked as data, which is what the dump selects) is shared with C05. the other 55 per-CPU list_output formatters, symbol table and low/high summary are not covered.",
     "technique": "CBMC DFCC loop contracts (witness + ghost listing reader) on main/naken_asm.cpp and core/AsmContext.cpp",
 }
